@@ -210,6 +210,8 @@ func buildBatchWorld(root string, days int) *batchWorld {
 	}
 	a.Write(root)
 	c.Write(root)
+	// a project whose folder name differs from p2 only in letter case (its own files, another soil)
+	mk("P2", "1", "F1", "001", "sand20", "SM", "").Write(root)
 	// p3: pedotransfer function with texture fractions that do not add up to 100 %
 	p3 := mk("p3", "1", "F1", "001", "loam12", "SM", "")
 	p3.Soil.Hor = []proj.Horizon{{Tex: "SL3", Lower: 6, BD: 3, Corg: 1, CN: 10, PS: 45, Sand: 50, Silt: 20, Clay: 10}}
@@ -265,6 +267,7 @@ func buildBatchWorld(root string, days int) *batchWorld {
 		"A2": "project=p1 plotNr=1 fcode=W parameter=par poligonID=X",
 		// the same plot and soil id with groundwater taken from the polygon file (min/max 4-8 dm) instead of the soil file
 		"Ag": "project=p1 plotNr=1 fcode=W parameter=par poligonID=Q GroundWaterFrom=0",
+		"Cu":  "project=P2 plotNr=1 fcode=W parameter=par poligonID=CU",
 		// project p2 with the weather station whose minimum/maximum temperatures are exchanged on 8 days (two output ids)
 		"Cw":  "project=p2 plotNr=1 fcode=WB parameter=par poligonID=W8",
 		"Cw2": "project=p2 plotNr=1 fcode=WB parameter=par poligonID=W9",
